@@ -100,6 +100,17 @@ def pureStep (s : PState) (ws : List String) (impl : Option String) : PState × 
           else "ok"
         | some i, none => if (words i).headD "" == "accept" then "fail:accept_without_grant" else "ok"
         | none, _ => "-"
+      -- follow the implementation's state when it is given
+      let cur' := match impl with
+        | some i =>
+          let iw := words i
+          if iw.headD "" == "accept" then
+            (if kv iw "del" == some "1" then none
+             else match (kv iw "limit") >>= parseCoins? with
+               | some l => some { limit := l, allow := splitList ((kv iw "allow").getD "-") }
+               | none => cur')
+          else s.cur
+        | none => cur'
       let s' := { s with cur := cur',
                          movedImpl := if implAccepted then s.movedImpl ++ [(d, a)] else s.movedImpl,
                          nAcc := if implAccepted then s.nAcc + 1 else s.nAcc }
@@ -204,7 +215,24 @@ private def insertSortedBy {α} (lt : α → α → Bool) (x : α) : List α →
 def showMState (m : MState) : String :=
   let rs := m.rights.foldl (fun acc r => insertSortedBy (fun (a b : String × List Access) => a.1 < b.1) r acc) []
   let acl := rs.map fun r => s!"{r.1}:{if r.2.isEmpty then "-" else "+".intercalate (r.2.map Access.toString)}"
-  s!"rec={m.record} esc={m.escrow} sup={m.circulating} acl={if acl.isEmpty then "-" else "|".intercalate acl}"
+  let bs := (m.bals.filter (·.2 != 0)).foldl (fun acc r => insertSortedBy (fun (a b : String × Int) => a.1 < b.1) r acc) []
+  let bals := bs.map fun b => s!"{b.1}:{b.2}"
+  s!"rec={m.record} esc={m.escrow} sup={m.circulating} acl={if acl.isEmpty then "-" else "|".intercalate acl} bals={if bals.isEmpty then "-" else "|".intercalate bals}"
+
+/-- read the implementation's dump back (the checker then judges the next message in the
+state the implementation is really in, so one disagreement does not cascade) -/
+def parseMState? (prev : MState) (ws : List String) : Option MState := do
+  let record ← (kv ws "rec") >>= parseInt?
+  let escrow ← (kv ws "esc") >>= parseInt?
+  let rights ← (splitList ((kv ws "acl").getD "-")).mapM fun ent =>
+    match ent.splitOn ":" with
+    | [a, rs] => (parseAccess? rs).map fun r => (a, r)
+    | _ => none
+  let bals ← (splitList ((kv ws "bals").getD "-")).mapM fun ent =>
+    match ent.splitOn ":" with
+    | [a, v] => (parseInt? v).map fun x => (a, x)
+    | _ => none
+  pure { prev with live := true, record := record, escrow := escrow, rights := rights, bals := bals }
 
 /-- scenario op, its caller, and the `Op` whose credentials the checker looks at -/
 def parseSOp? (w : String) (ws : List String) : Option (SOp × String × Option Op) :=
@@ -266,6 +294,13 @@ def appStep (s : AState) (ws : List String) (impl : Option String) : AState × S
         | some _ => if implOk then xferVerdict s c u dest else "ok"
         | none => "-"
       let used := implOk && usesGrant c x
+      -- follow the implementation's state when it is given
+      let s1 := match impl with
+        | some i =>
+          if implOk then
+            { s with stored := (((kv (words i) "grant") >>= parseGrant?).getD s1.stored), bal := s.bal - amt }
+          else s
+        | none => s1
       let s2 := { s1 with movedImpl := if used then s.movedImpl ++ [(tokDenom, amt)] else s.movedImpl,
                           nAcc := if used then s.nAcc + 1 else s.nAcc }
       (s2, out, v)
@@ -284,7 +319,18 @@ def appStep (s : AState) (ws : List String) (impl : Option String) : AState × S
           probeVerdict op c (honestCfg c (s.mkr.balOf by_) s.mkr.circulating) i
         | some _, none => "-"
         | none, _ => "-"
-      ({ s with mkr := mk' }, out, v)
+      -- follow the implementation's state when it is given
+      let mk'' := match impl with
+        | some i =>
+          let iw := words i
+          if iw.headD "" == "ok" then
+            let base := match sop with
+              | .create _ fixed ty _ => { mk' with fixed := fixed, mtype := ty }
+              | _ => s.mkr
+            (parseMState? base iw).getD mk'
+          else s.mkr
+        | none => mk'
+      ({ s with mkr := mk'' }, out, v)
   | _ => (s, "bad-op", "-")
 
 def appDriver : Driver where
